@@ -23,7 +23,11 @@ What is modelled, following the code as it is written:
   dense partials of an array input are always computed entry by entry).
 * `ExecComp._compute_colored_partials`: the scratch array, its zeroing, the column groups
   (`colStep`, `groupStep`, `coloredJac`).  The coloring itself (`_compute_coloring`, shared with
-  property C03) is a parameter.
+  property C03) is a parameter; `coloringOk` is the executable contract it must meet at the point
+  of evaluation (it is computed once, near the first point, and the code never re-checks it).
+  The switch `skipPiecewise` of `Comp.wantsColoring` selects the current `_setup_partials`
+  (`false`) or the proposed repair (`true`: no automatic coloring when an expression uses
+  `abs/maximum/minimum/fmax/fmin`).  Both switches are detected by the harness with a probe.
 
 Not modelled (differential only): 2-D linear algebra (`matmul`, `tensordot`, `outer`, `kron`),
 array creation (`arange`, `ones`, ...), `prod/max/min/diff`, units, `shape_by_conn` resolution.
@@ -287,6 +291,28 @@ def mkAlg {C : Type} [Add C] [Sub C] [Mul C] [Div C] [Neg C] [OfNat C 1]
   prim := prim
   prim2 := prim2
 
+/-! ## The exact instance run by the driver: `Rat`, with the piecewise-linear primitives -/
+
+def isMaxName (f : String) : Bool := f == "maximum" || f == "fmax"
+def isMinName (f : String) : Bool := f == "minimum" || f == "fmin"
+
+/-- `abs` (as `cs_safe.abs`); every other unary name is outside the rational fragment. -/
+def ratPrim (f : String) (x : Rat) : Rat := if f == "abs" then (if x < 0 then -x else x) else x
+def ratPrim' (f : String) (x : Rat) : Rat :=
+  if f == "abs" then (if x < 0 then -1 else if 0 < x then 1 else 0) else 0
+def ratPrim2 (f : String) (a b : Rat) : Rat :=
+  if isMaxName f then (if a < b then b else a)
+  else if isMinName f then (if b < a then b else a) else a
+def ratPrim2a (f : String) (a b : Rat) : Rat :=
+  if isMaxName f then (if a < b then 0 else 1)
+  else if isMinName f then (if b < a then 0 else 1) else 0
+def ratPrim2b (f : String) (a b : Rat) : Rat :=
+  if isMaxName f then (if a < b then 1 else 0)
+  else if isMinName f then (if b < a then 1 else 0) else 0
+
+def ratAlg : Alg Rat := mkAlg id ratPrim ratPrim2
+def ratDeriv : Deriv Rat := ⟨ratPrim', ratPrim2a, ratPrim2b⟩
+
 /-! ## Function-table names (tied to the live `_expr_dict` by `Generated/C14ExecFuncs.lean`) -/
 
 /-- Unary elementwise functions that `Expr.prim` stands for. -/
@@ -355,10 +381,37 @@ def sumSizes : List Shape → Nat
   | [] => 0
   | s :: r => s.size + sumSizes r
 
+/-- Uses a function whose derivative vanishes identically on one side of a switch point
+(`abs`, `maximum`, `minimum`, `fmax`, `fmin`), so that a sparsity pattern sampled at one point
+need not hold at another. -/
+def Expr.piecewise : Expr → Bool
+  | .lit _ => false
+  | .var _ => false
+  | .neg a => a.piecewise
+  | .add a b => a.piecewise || b.piecewise
+  | .sub a b => a.piecewise || b.piecewise
+  | .mul a b => a.piecewise || b.piecewise
+  | .div a b => a.piecewise || b.piecewise
+  | .powi a _ => a.piecewise
+  | .prim f a => f == "abs" || a.piecewise
+  | .prim2 f a b => isMaxName f || isMinName f || a.piecewise || b.piecewise
+  | .sum a => a.piecewise
+  | .dot a b => a.piecewise || b.piecewise
+  | .idx a _ => a.piecewise
+  | .rev a => a.piecewise
+
 /-- `_setup_partials`: coloring is declared (and `options['do_coloring']` stays True) only when
-not `has_diag_partials` and the component has more than one input entry and output entry. -/
-def Comp.wantsColoring (hd doColoring : Bool) (c : Comp) : Bool :=
+not `has_diag_partials` and the component has more than one input entry and output entry.
+`skipPiecewise` selects the proposed repair in which automatic coloring is also skipped when an
+expression uses a piecewise function (current code: `false`). -/
+def Comp.wantsColoring (skipPiecewise hd doColoring : Bool) (c : Comp) : Bool :=
   doColoring && !hd && decide (sumSizes c.ins > 1) && decide (sumSizes (c.outs.map (·.1)) > 1)
+    && !(skipPiecewise && c.outs.any (·.2.piecewise))
+
+/-- Value of `options['do_coloring']` after `_setup_partials`: it is switched off only on the
+branch that considered coloring and decided against it. -/
+def Comp.doColoringAfterSetup (skipPiecewise hd doColoring : Bool) (c : Comp) : Bool :=
+  if doColoring && !hd then c.wantsColoring skipPiecewise hd doColoring else doColoring
 
 section exec
 variable {K : Type} (A : Alg K) (D : Deriv K)
@@ -476,6 +529,24 @@ def coloredEntry (c : Comp) (x : Nat → Nat → K) (coloring : List (List (Nat 
     some (coloredJac A c.declRow (imagRow A D c x) (fun _ _ => A.lit 0) coloring
       (outOffset c u + r) (inOffset c v + j))
   else none
+
+def nodupB : List Nat → Bool
+  | [] => true
+  | a :: t => !t.contains a && nodupB t
+
+/-- Run-time validation of a coloring handed over by `_compute_coloring` against the hypotheses of
+`C14_colored_eq`: every column at most once; inside a group the row lists of different columns
+are disjoint; listed rows belong to declared pairs; the listed rows of a column cover the
+nonzeros of its single-column perturbation. -/
+def coloringOk (isZero : K → Bool) (c : Comp) (x : Nat → Nat → K)
+    (coloring : List (List (Nat × List Nat))) : Bool :=
+  nodupB (coloring.flatten.map (·.1)) &&
+  coloring.all fun grp =>
+    grp.all (fun a => grp.all fun b => a.1 == b.1 || a.2.all fun row => !b.2.contains row) &&
+    grp.all fun cr =>
+      cr.2.all (fun row => c.declRow row cr.1) &&
+      (List.range (sumSizes (c.outs.map (·.1)))).all fun row =>
+        isZero (imagRow A D c x [cr.1] row) || cr.2.contains row
 
 end exec
 
